@@ -427,6 +427,7 @@ func c42nCase(rt *rapid.T, rec *vh.Recorder, gitOnly bool) {
 			rt.Fatalf("client %d Commit(%s, last=%s [%s]): %v", c.id, cur, last, lk, err)
 		}
 		var want bool
+		viewBefore := c.viewRoot
 		switch {
 		case last != c.viewRoot:
 			// Commit requires last == the store's own Root(); nothing else happens
@@ -442,7 +443,7 @@ func c42nCase(rt *rapid.T, rec *vh.Recorder, gitOnly bool) {
 			lostRace = true
 		}
 		if ok != want {
-			rt.Fatalf("client %d Commit(%s, last=%s [%s]) = %v, want %v (client view %s, current root %s)", c.id, cur, last, lk, ok, want, c.viewRoot, m.root)
+			rt.Fatalf("client %d Commit(%s, last=%s [%s]) = %v, want %v (client view %s, current root %s)", c.id, cur, last, lk, ok, want, viewBefore, m.root)
 		}
 		if ok {
 			m.epoch++
